@@ -8,7 +8,7 @@ import sympy as sp
 
 from engine import AnalysisError, symx
 from engine.srcmodel import walk_shallow, norm
-from engine.util import call_name, fstring_template, contains, is_attr_of
+from engine.util import call_name, fstring_template, contains, is_attr_of, normalise
 from engine.dataflow import assigned_value
 from . import solvers as S
 
@@ -54,7 +54,87 @@ def _arg_to_sympy(text: str):
     return symx.to_sympy(ast.parse(s, mode="eval").body)
 
 
+def _mode_formula(test: ast.AST):
+    """Boolean formula over A = (dt is None), B = dt_adapt for a branch test of add_var_hist; None if it mentions anything else."""
+    from sympy import Symbol, Not, And, Or
+    A, B = Symbol("dt_is_None"), Symbol("dt_adapt")
+    if isinstance(test, ast.Name) and test.id == "dt_adapt":
+        return B
+    if isinstance(test, ast.Name) and test.id == "dt":
+        return None          # truthiness of dt (0.0 is falsy) is not the same as `dt is not None`
+    if isinstance(test, ast.UnaryOp) and isinstance(test.op, ast.Not):
+        x = _mode_formula(test.operand)
+        return None if x is None else Not(x)
+    if isinstance(test, ast.BoolOp):
+        xs = [_mode_formula(v) for v in test.values]
+        if any(x is None for x in xs):
+            return None
+        return And(*xs) if isinstance(test.op, ast.And) else Or(*xs)
+    if isinstance(test, ast.Compare) and len(test.ops) == 1 and isinstance(test.left, ast.Name) and test.left.id == "dt" \
+            and isinstance(test.comparators[0], ast.Constant) and test.comparators[0].value is None:
+        if isinstance(test.ops[0], (ast.Is, ast.Eq)):
+            return A
+        if isinstance(test.ops[0], (ast.IsNot, ast.NotEq)):
+            return Not(A)
+    return None
+
+
+def _emissions(ctx, rid, f):
+    """Path-sensitive evaluation of add_var_hist: for every non-raising path the branch decisions (as a formula over the step mode)
+    and the emitted code-line templates with local string variables spliced in."""
+    from sympy import true, And, Not
+    from engine.util import enumerate_paths
+    cfg = ctx.cfg(f)
+    out = []
+    for path in enumerate_paths(cfg):
+        if path[-1] is not cfg.EXIT:
+            continue
+        env, cond, lines = {}, true, []
+
+        def tmpl(e):
+            if isinstance(e, ast.Constant) and isinstance(e.value, str):
+                return e.value
+            if isinstance(e, ast.Name) and e.id in env:
+                t = tmpl(env[e.id])
+                return t if t is not None else None
+            if isinstance(e, ast.JoinedStr):
+                parts = []
+                for v in e.values:
+                    if isinstance(v, ast.Constant):
+                        parts.append(str(v.value))
+                    else:
+                        inner = tmpl(v.value) if isinstance(v.value, ast.Name) and v.value.id in env else None
+                        parts.append(inner if inner is not None else "⟨" + ast.unparse(v.value) + "⟩")
+                return "".join(parts)
+            if isinstance(e, ast.BinOp) and isinstance(e.op, ast.Add):
+                l, r = tmpl(e.left), tmpl(e.right)
+                return l + r if l is not None and r is not None else None
+            return None
+        for k, st in enumerate(path):
+            if isinstance(st, ast.If) and k + 1 < len(path):
+                labels = cfg.g[st][path[k + 1]]["labels"]
+                fm = _mode_formula(st.test)
+                if fm is None:
+                    raise AnalysisError(f"{rid}: {f.qual}: unrecognised step-mode test `{ast.unparse(st.test)}`")
+                cond = And(cond, fm if "true" in labels else Not(fm))
+            elif isinstance(st, ast.Assign) and len(st.targets) == 1 and isinstance(st.targets[0], ast.Name):
+                env[st.targets[0].id] = st.value
+            elif isinstance(st, ast.stmt) and not isinstance(st, (ast.For, ast.While, ast.With, ast.Try)):
+                for c in ast.walk(st):
+                    if isinstance(c, ast.Call) and call_name(c) == "add_code_line" and c.args:
+                        t = tmpl(c.args[0])
+                        if t is None:
+                            raise AnalysisError(f"{rid}: {f.qual}: emitted line is not a string template: {ast.unparse(c.args[0])[:80]}")
+                        lines.append((st, t, dict(env)))
+        out.append((cond, lines, cfg.path_str(path)))
+    return out
+
+
 def r1_add_var_hist(ctx, rid):
+    from sympy import Symbol, And, Or, Not
+    from sympy.logic.inference import satisfiable
+    A, B = Symbol("dt_is_None"), Symbol("dt_adapt")
+    MODES = {"fixed": And(Not(A), Not(B)), "adaptive": Or(A, B)}
     base = ctx.repo.get_class(S.BASE_REL, "BaseBackend")
     n = 0
     for cls in ctx.repo.subclasses(base):
@@ -65,75 +145,68 @@ def r1_add_var_hist(ctx, rid):
             ctx.info(rid, f, f.node, f"{cls.name} overrides add_var_hist for the target language's own DDE interface; listed, not armed")
             continue
         n += 1
-        ifs = [st for st in f.node.body if isinstance(st, ast.If)]
-        branch = None
-        for st in ifs:
-            names = {x.id for x in ast.walk(st.test) if isinstance(x, ast.Name)}
-            if "dt_adapt" in names:
-                branch = st
-        if branch is None:
-            raise AnalysisError(f"{rid}: {f.qual}: no branch on dt_adapt found (unrecognised form)")
-        t = branch.test
-        fixed_is_true = None
-        if isinstance(t, ast.BoolOp) and isinstance(t.op, ast.And):
-            parts = [ast.unparse(v) for v in t.values]
-            if "not dt_adapt" in parts and "dt is not None" in parts:
-                fixed_is_true = True
-        elif isinstance(t, ast.Name) and t.id == "dt_adapt":
-            fixed_is_true = False
-        if fixed_is_true is None:
-            raise AnalysisError(f"{rid}: {f.qual}: unrecognised step-mode test `{ast.unparse(t)}`")
+        for need in ("lhs", "delay", "state_idx", "dt", "dt_adapt"):
+            ctx.require(need in f.params, f"{rid}: {f.qual}: parameter `{need}` vanished")
+        ems = _emissions(ctx, rid, f)
+        reported = set()
+        for mode, mform in MODES.items():
+            feas = [(lines, ps) for cond, lines, ps in ems if satisfiable(And(cond, mform))]
+            if not feas:
+                raise AnalysisError(f"{rid}: {f.qual}: no path for the {mode} step mode")
+            for lines, ps in feas:
+                if len(lines) != 1:
+                    ctx.violation(rid, f, f.node, f"a path taken in {mode} step mode emits {len(lines)} history look-ups instead of one",
+                                  {"path": ps}, label=f"{mode} path emits one look-up")
+                    continue
+                st, tpl, env = lines[0]
+                parsed = _hist_template(tpl)
+                if parsed is None:
+                    raise AnalysisError(f"{rid}: {f.qual}: emitted line `{tpl}` is not of the form lhs = hist(arg)[idx]")
+                lhs, arg, idx = parsed
+                try:
+                    e = _arg_to_sympy(arg)
+                except Exception as ex:
+                    raise AnalysisError(f"{rid}: {f.qual}: cannot parse the time argument `{arg}`: {ex}")
+                tt = sp.Symbol("t")
+                holes = re.findall(r"⟨(.*?)⟩", arg)
+                delay_holes = [h for h in holes if h != "dt"]
+                facts = {"template": tpl, "mode": mode, "argument": str(e), "path": ps}
+                if len(delay_holes) != 1:
+                    good, dh = False, (delay_holes[-1] if delay_holes else None)
+                else:
+                    dh = delay_holes[0]
+                    hsym = sp.Symbol("H_" + re.sub(r"\W", "_", dh))
+                    ref = tt * sp.Symbol("H_dt") - hsym if mode == "fixed" else tt - hsym
+                    good = sp.simplify(e - ref) == 0
 
-        def emitted(body):
-            out = []
-            for st in body:
-                for c in ast.walk(st):
-                    if isinstance(c, ast.Call) and call_name(c) == "add_code_line" and c.args:
-                        tpl = fstring_template(c.args[0])
-                        if tpl is not None:
-                            out.append((st, tpl))
-            return out
-        fixed = emitted(branch.body if fixed_is_true else branch.orelse)
-        adapt = emitted(branch.orelse if fixed_is_true else branch.body)
-        if len(fixed) != 1 or len(adapt) != 1:
-            raise AnalysisError(f"{rid}: {f.qual}: expected one emitted line per branch")
-        # provenance of idx and d
-        pre = {}
-        for st in f.node.body:
-            if isinstance(st, ast.Assign) and len(st.targets) == 1 and isinstance(st.targets[0], ast.Name):
-                pre[st.targets[0].id] = st.value
-        for (st, tpl), mode in ((fixed[0], "fixed"), (adapt[0], "adaptive")):
-            parsed = _hist_template(tpl)
-            if parsed is None:
-                raise AnalysisError(f"{rid}: {f.qual}: emitted line `{tpl}` is not of the form lhs = hist(arg)[idx]")
-            lhs, arg, idx = parsed
-            e = _arg_to_sympy(arg)
-            tt = sp.Symbol("t")
-            dname = re.findall(r"⟨(.*?)⟩", arg)
-            delay_holes = [h for h in dname if h != "dt"]
-            ref = tt * sp.Symbol("H_dt") - sp.Symbol("H_" + delay_holes[-1]) if mode == "fixed" else tt - sp.Symbol("H_" + delay_holes[-1])
-            facts = {"template": tpl, "mode": mode, "argument": str(e)}
-            good = sp.simplify(e - ref) == 0 and len(delay_holes) == 1
-            # the delay hole must be the processed `delay` parameter, the index hole the processed state_idx
-            dh = delay_holes[-1] if delay_holes else None
-            dsrc = pre.get(dh)
-            isrc = pre.get(idx.strip("⟨⟩"))
-            d_ok = isinstance(dsrc, ast.Call) and call_name(dsrc) == "_process_delay" and ast.unparse(dsrc.args[0]) == "delay"
-            i_ok = isinstance(isrc, ast.Call) and call_name(isrc) == "_process_idx" and ast.unparse(isrc.args[0]) == "state_idx"
-            lhs_ok = lhs == "⟨lhs⟩"
-            if good and d_ok and i_ok and lhs_ok:
-                ctx.ok(rid, f, st, f"{mode} path reads hist({'t*dt' if mode == 'fixed' else 't'} - delay)[state index]", facts)
-            else:
-                why = []
-                if not good:
-                    why.append(f"time argument is `{arg}`, expected {'t*dt - d' if mode == 'fixed' else 't - d'} (t is the step counter on the fixed-step path)")
-                if not d_ok:
-                    why.append("the delay is not the processed `delay` parameter")
-                if not i_ok:
-                    why.append("the subscript is not the processed `state_idx`")
-                if not lhs_ok:
-                    why.append("the assigned name is not `lhs`")
-                ctx.violation(rid, f, st, f"{mode} history lookup is wrong: " + "; ".join(why), facts)
+                def src(hole):
+                    v = env.get(hole) if hole else None
+                    for _ in range(4):
+                        if isinstance(v, ast.Name) and v.id in env:
+                            v = env[v.id]
+                    return v
+                dsrc, isrc = src(dh), src(idx.strip("⟨⟩"))
+                d_ok = isinstance(dsrc, ast.Call) and call_name(dsrc) == "_process_delay" and dsrc.args and ast.unparse(dsrc.args[0]) == "delay"
+                i_ok = isinstance(isrc, ast.Call) and call_name(isrc) == "_process_idx" and isrc.args and ast.unparse(isrc.args[0]) == "state_idx"
+                lhs_ok = lhs == "⟨lhs⟩"
+                key = (mode, id(st), tpl)
+                if key in reported:
+                    continue
+                reported.add(key)
+                if good and d_ok and i_ok and lhs_ok:
+                    ctx.ok(rid, f, st, f"{mode} path reads hist({'t*dt' if mode == 'fixed' else 't'} - delay)[state index]", facts,
+                           label=f"{mode} step mode: history look-up")
+                else:
+                    why = []
+                    if not good:
+                        why.append(f"time argument is `{arg}`, expected {'t*dt - d' if mode == 'fixed' else 't - d'} (t is the step counter on the fixed-step path)")
+                    if not d_ok:
+                        why.append("the delay is not the processed `delay` parameter")
+                    if not i_ok:
+                        why.append("the subscript is not the processed `state_idx`")
+                    if not lhs_ok:
+                        why.append("the assigned name is not `lhs`")
+                    ctx.violation(rid, f, st, f"{mode} history lookup is wrong: " + "; ".join(why), facts, label=f"{mode} step mode: history look-up")
     if n < 1:
         raise AnalysisError(f"{rid}: no python-target add_var_hist found")
 
@@ -209,21 +282,38 @@ def r2_history_index_is_state_index(ctx, rid):
             ctx.violation(rid, f, call, "delay and history-variable name are not taken from the same (delay, name) entry", label="delay/name pairing")
     else:
         raise AnalysisError(f"{rid}: inner loop over the variable's delay table not recognised")
-    # producer: _get_var_hist
+    # producer: _get_var_hist — roles: TABLE = self._state_var_hist[var] (also spelt `.setdefault(var, {})` or through a local alias)
     g = ctx.repo.get_func(CG, "ComputeGraph._get_var_hist")
-    stores = [st for st in walk_shallow(g.node) if isinstance(st, ast.Assign) and len(st.targets) == 1 and isinstance(st.targets[0], ast.Subscript)
-              and "_state_var_hist" in ast.unparse(st.targets[0])]
-    two_level = [st for st in stores if isinstance(st.targets[0].value, ast.Subscript)]
+    gself = g.self_name
+    for need in ("var", "delay"):
+        ctx.require(need in g.params, f"{rid}: _get_var_hist lost its parameter `{need}`")
+
+    def canon(e):
+        e = normalise(ctx, g, e)
+
+        class _C(ast.NodeTransformer):
+            def visit_Call(self, c):
+                self.generic_visit(c)
+                if isinstance(c.func, ast.Attribute) and c.func.attr == "setdefault" and len(c.args) == 2 \
+                        and ((isinstance(c.args[1], ast.Dict) and not c.args[1].keys) or (isinstance(c.args[1], ast.Call) and call_name(c.args[1]) == "dict"
+                                                                                         and not c.args[1].args and not c.args[1].keywords)):
+                    return ast.Subscript(value=c.func.value, slice=c.args[0], ctx=ast.Load())
+                return c
+        return _C().visit(e)
+    TABLE = f"{gself}._state_var_hist[var]"
+    two_level = []
+    for st in walk_shallow(g.node):
+        if isinstance(st, ast.Assign) and len(st.targets) == 1 and isinstance(st.targets[0], ast.Subscript):
+            basee = canon(st.targets[0].value)
+            if isinstance(basee, ast.Subscript) and is_attr_of(basee.value, gself, "_state_var_hist"):
+                two_level.append((st, ast.unparse(basee.slice), ast.unparse(normalise(ctx, g, st.targets[0].slice))))
     if not two_level:
         raise AnalysisError(f"{rid}: _get_var_hist no longer stores into _state_var_hist[var][delay]")
-    for st in two_level:
-        t = st.targets[0]
-        k1 = ast.unparse(t.value.slice)
-        k2 = ast.unparse(t.slice)
+    for st, k1, k2 in two_level:
         if k1 == "var" and k2 == "delay":
-            ctx.ok(rid, g, st, "history variable registered under the (var, delay) it was requested for")
+            ctx.ok(rid, g, st, "history variable registered under the (var, delay) it was requested for", label="registered under (var, delay)")
         else:
-            ctx.violation(rid, g, st, f"history variable registered under ({k1}, {k2}) instead of (var, delay)")
+            ctx.violation(rid, g, st, f"history variable registered under ({k1}, {k2}) instead of (var, delay)", label="registered under (var, delay)")
     # the generated name is unique per (var, delay): `<var>_hist<k>` with k = number of delays already registered for THIS variable,
     # i.e. the size of the very table the name is stored into
     names = [st for st in walk_shallow(g.node) if isinstance(st, ast.Assign) and isinstance(st.value, ast.JoinedStr)]
@@ -233,15 +323,15 @@ def r2_history_index_is_state_index(ctx, rid):
     holes = [v.value for v in tpl.values if isinstance(v, ast.FormattedValue)]
     lens = [h for h in holes if isinstance(h, ast.Call) and call_name(h) == "len" and h.args]
     var_hole = any(isinstance(h, ast.Name) and h.id == "var" for h in holes)
-    table = two_level[0].targets[0].value          # self._state_var_hist[var]
     if not lens:
         raise AnalysisError(f"{rid}: history-variable name has no counter component: {fstring_template(tpl)}")
-    if var_hole and ast.dump(lens[0].args[0]) == ast.dump(table):
+    counted = ast.unparse(canon(lens[0].args[0]))
+    if var_hole and counted == TABLE:
         ctx.ok(rid, g, names[0], "history-variable name = variable name + number of delays already registered for that variable (unique per (var, delay))",
                {"template": fstring_template(tpl)}, label="history-variable name is unique per (var, delay)")
     else:
         ctx.violation(rid, g, names[0], f"the history-variable name `{fstring_template(tpl)}` is not numbered by the size of the table it is stored "
-                                        f"into ({ast.unparse(table)}): two different delays of one variable can receive the same name, so both "
+                                        f"into ({TABLE}; it counts `{counted}`): two different delays of one variable can receive the same name, so both "
                                         f"delayed terms read the later one's history", {"template": fstring_template(tpl)},
                       label="history-variable name is unique per (var, delay)")
     # the call site in _expr_to_str passes the variable the `past` call names
@@ -302,30 +392,39 @@ def r4_history_time_units(ctx, rid):
         if f is None:
             continue
         n += 1
-        so = f.nested.get("solout")
+        # roles: the callback registered with set_solout(...), the wrapper that calls the vector field `func`
+        reg = [c for c in walk_shallow(f.node) if isinstance(c, ast.Call) and call_name(c) == "set_solout" and c.args]
+        so = f.nested.get(reg[0].args[0].id) if reg and isinstance(reg[0].args[0], ast.Name) else None
         if so is None:
-            raise AnalysisError(f"{rid}: {f.qual}: nested solout vanished")
+            cands = [g for g in f.nested.values() if any(isinstance(c, ast.Call) and call_name(c) == "update" for c in ast.walk(g.node))]
+            so = cands[0] if len(cands) == 1 else None
+        if so is None:
+            raise AnalysisError(f"{rid}: {f.qual}: no nested callback that feeds the history (set_solout argument) found")
         ups = [c for c in ast.walk(so.node) if isinstance(c, ast.Call) and call_name(c) == "update"]
         params = so.params
         if len(ups) == 1 and [ast.unparse(a) for a in ups[0].args] == params[:2]:
-            ctx.ok(rid, so, ups[0], "solout forwards (t, y) of each accepted step unchanged to the history")
+            ctx.ok(rid, so, ups[0], "solout forwards (t, y) of each accepted step unchanged to the history", label="callback forwards (t, y)")
         else:
-            ctx.violation(rid, so, so.node, "solout does not forward (t, y) of the accepted step unchanged to hist.update")
+            ctx.violation(rid, so, so.node, "solout does not forward (t, y) of the accepted step unchanged to hist.update", label="callback forwards (t, y)")
         # the hist object updated is args[0], the same object func receives via *args
-        hist_def = [st for st in f.node.body if isinstance(st, ast.Assign) and any(isinstance(t, ast.Name) and t.id == "hist" for t in st.targets)]
-        good = hist_def and ast.unparse(hist_def[0].value) == "args[0]"
-        recv = ups[0].func.value if ups else None
-        if good and isinstance(recv, ast.Name) and recv.id == "hist":
-            ctx.ok(rid, f, hist_def[0], "the history that is updated is args[0], the object the vector field queries")
+        recv = ups[0].func.value if ups and isinstance(ups[0].func, ast.Attribute) else None
+        hist_def = []
+        if isinstance(recv, ast.Name):
+            hist_def = [st for st in walk_shallow(f.node) if isinstance(st, ast.Assign) and any(isinstance(t, ast.Name) and t.id == recv.id for t in st.targets)]
+        good = len(hist_def) == 1 and ast.unparse(hist_def[0].value) == "args[0]"
+        direct = recv is not None and ast.unparse(recv) == "args[0]"
+        if good or direct:
+            ctx.ok(rid, f, hist_def[0] if good else ups[0], "the history that is updated is args[0], the object the vector field queries", label="hist identity")
         else:
             ctx.violation(rid, f, f.node, "the updated history is not args[0] (the vector field would query a different object)", label="hist identity")
-        rhs = f.nested.get("rhs")
-        if rhs is not None:
+        wrappers = [g for g in f.nested.values() if g is not so and any(isinstance(c, ast.Call) and isinstance(c.func, ast.Name) and c.func.id == "func"
+                                                                        for c in ast.walk(g.node))]
+        for rhs in wrappers:
             fc = [c for c in ast.walk(rhs.node) if isinstance(c, ast.Call) and isinstance(c.func, ast.Name) and c.func.id == "func"]
             if fc and any(isinstance(a, ast.Starred) and ast.unparse(a.value) == "args" for a in fc[0].args):
-                ctx.ok(rid, rhs, fc[0], "rhs wrapper passes *args (history first) through to the vector field", nontrivial=False)
+                ctx.ok(rid, rhs, fc[0], "rhs wrapper passes *args (history first) through to the vector field", nontrivial=False, label="wrapper passes *args")
             else:
-                ctx.violation(rid, rhs, rhs.node, "rhs wrapper does not pass the history through to the vector field")
+                ctx.violation(rid, rhs, rhs.node, "rhs wrapper does not pass the history through to the vector field", label="wrapper passes *args")
         # solout registered
         if any(isinstance(c, ast.Call) and call_name(c) == "set_solout" for c in walk_shallow(f.node)):
             ctx.ok(rid, f, f.node, "solout is registered with the integrator", label="set_solout", nontrivial=False)
